@@ -632,8 +632,8 @@ impl SeqSpec for Spec {
             Op::AmountV => call_method(w.a, "balance", &(w.f,)),
         }
     }
-    /// drop every proof, put every live bucket back, deposit, then demand that the FULL amount and all ids can
-    /// be withdrawn again (and put them back so that the final balances can be read)
+    /// drop every proof, put every live bucket back on the worktop, then demand that the FULL amount and all ids
+    /// the vaults hold can be withdrawn, and deposit everything so that the final balances can be read
     fn tail(&self, m: &Model) -> Vec<InstructionV1> {
         let w = &self.w;
         let mut t = vec![InstructionV1::DropAllProofs(DropAllProofs)];
@@ -642,9 +642,9 @@ impl SeqSpec for Spec {
                 t.push(InstructionV1::ReturnToWorktop(ReturnToWorktop { bucket_id: ManifestBucket(b as u32) }));
             }
         }
-        t.push(call_method(w.a, "deposit_batch", &(ManifestExpression::EntireWorktop,)));
-        t.push(call_method(w.a, "withdraw", &(w.f, dec_of(m.final_f()))));
-        t.push(call_method(w.a, "withdraw_non_fungibles", &(w.nf, mask_ids(0b111))));
+        t.push(call_method(w.a, "withdraw", &(w.f, dec_of(m.vault_total()))));
+        let ids: Vec<NonFungibleLocalId> = m.nf_vault.iter().map(|i| NonFungibleLocalId::integer(*i)).collect();
+        t.push(call_method(w.a, "withdraw_non_fungibles", &(w.nf, ids)));
         t.push(call_method(w.a, "deposit_batch", &(ManifestExpression::EntireWorktop,)));
         t
     }
@@ -734,9 +734,9 @@ pub fn run(ctx: Ctx) -> ! {
     }
     // (variant, length, wall cap)
     let plan: Vec<(&str, usize, f64)> = if ctx.quick() {
-        vec![("full-div2", 3, 25.0), ("full-div18", 3, 40.0), ("core-div2", 4, 55.0)]
+        vec![("full-div2", 3, 60.0), ("full-div18", 3, 60.0), ("core-div2", 4, 60.0)]
     } else {
-        vec![("full-div2", 4, 400.0), ("full-div18", 4, 800.0), ("core-div2", 5, 1100.0)]
+        vec![("full-div2", 4, 900.0), ("full-div18", 4, 900.0), ("core-div2", 5, 900.0)]
     };
     let mut cov = Map::new();
     let (mut executed, mut nontrivial, mut capped) = (0, 0, false);
@@ -744,7 +744,7 @@ pub fn run(ctx: Ctx) -> ! {
     for (i, (tag, len, cap)) in plan.into_iter().enumerate() {
         let (d, a) = variant(tag);
         let spec = Spec::new(d, a);
-        let st = explore(&ctx, &spec, i, tag, len, cap, &mut cov);
+        let st = explore(&ctx, &spec, i, tag, len, ctx.elapsed_s() + cap, &mut cov);
         executed += st.executed;
         nontrivial += st.nontrivial;
         capped |= st.capped;
@@ -755,6 +755,9 @@ pub fn run(ctx: Ctx) -> ! {
     cov.insert("traces_validated_against_impl".into(), json!(executed));
     cov.insert("bounds".into(), json!(bounds));
     cov.insert("caps_hit".into(), json!(capped));
+    let (r, x, c, n) = profile();
+    cov.insert("mean_us_per_transaction".into(), json!({"snapshot_restore": r, "execute": x, "post_checks": c, "transactions": n}));
+    println!("PROFILE mean us/tx: restore={r} execute={x} post={c} n={n}");
     ctx.finish(
         Level::ModelChecking,
         "every instruction sequence up to the bound over the alphabet (after the fixed prelude that creates a 3 F bucket) is executed as one transaction on the real engine from the same snapshot, followed by the fixed tail (drop all proofs, deposit everything, withdraw the full amount and all ids again); a sequence is extended only if the engine executed all its instructions (marker fee lock observed in the receipt); non-trivial = sequences whose instructions all executed",
